@@ -39,6 +39,36 @@ theorem manifestAt_aset_ne (fs : FileSys) (d d' : Str) (m : Manifest) (h : d' â‰
     manifestAt (aset d m fs) d' = manifestAt fs d' := by
   simp [manifestAt, aget_aset_ne d d' m fs h]
 
+/-! ### the include workaround -/
+
+theorem includeStep_id (env : IncEnv) (kw cur : Settings) (h : opensInclude kw = false) :
+    includeStep env kw cur = .ok cur := by
+  fun_induction includeStep env kw cur <;> simp_all [opensInclude]
+
+theorem loadMd_env (schema : List (Str Ã— Tag Ã— PyVal)) (seps : List (Str Ã— Str)) (intrinsic : List (Str Ã— Str))
+    (md : List Str) (uw : Bool) (env env' : IncEnv)
+    (h : (match convertMeta schema seps (mdRaw (metaPre md).1) with
+          | .ok (kw, _) => opensInclude kw | .error _ => false) = false) :
+    loadMd schema seps intrinsic md uw env = loadMd schema seps intrinsic md uw env' := by
+  unfold loadMd
+  cases hc : convertMeta schema seps (mdRaw (metaPre md).1) with
+  | error e => rfl
+  | ok r =>
+    obtain âŸ¨kw, wâŸ© := r
+    simp only [hc] at h
+    simp only [includeStep_id env kw kw h, includeStep_id env' kw kw h]
+
+theorem effective_env (T : Tables) (dir pkg : Str) (toml : Option Settings) (md : List Str)
+    (config : Option Settings) (cli : Settings) (env env' : IncEnv)
+    (h : toml.isSome = true âˆ¨ mdIncludes T md = false) :
+    effective T dir pkg toml md config cli env = effective T dir pkg toml md config cli env' := by
+  unfold effective loadSettings
+  cases toml with
+  | some kw => rfl
+  | none =>
+    have h' : mdIncludes T md = false := by simpa using h
+    simp only [loadMd_env T.schema T.seps T.intrinsic md T.modsUserWins env env' h']
+
 /-! ### `os.path.dirname` -/
 
 theorem headPart_no_slash (p : Str) (h : p.contains '/' = false) : headPart p = [] := by
